@@ -346,10 +346,54 @@ def rewrite_body(body, mode, stats):
     # (this Verus knows of a string-literal pattern only "arm taken => text equal"; the if-chain over a string-equality test with the
     # exact spec `r == (a@ == b@)` gives both directions; same arms, same order, same bodies)
     body = rewrite_str_match(body, stats)
+    # R19: `loop { if C { break; } REST }` -> `while !(C) { REST }` (the same loop; loop specifications are written for the `while` form)
+    body = rewrite_loop_leading_break(body, stats)
     # R9: unwrap -> unwrap_or_abort (partial mode)
     if mode == 'partial':
         body = apply_counted(r'\.unwrap\(\)', '.unwrap_or_abort()', body, stats, 'R9_unwrap')
     return body
+
+
+def rewrite_loop_leading_break(body, stats):
+    out = body
+    for _ in range(8):
+        done = False
+        for m in code_positions(out, r'\bloop\s*\{'):
+            ob = m.end() - 1
+            cb = match_close(out, ob)
+            inner = out[ob + 1:cb]
+            stripped = strip_comments(inner)
+            mm = re.match(r'\s*if\s+', stripped)
+            if not mm:
+                continue
+            # work on the comment-free text of the loop body (comments carry no behaviour)
+            k = mm.end()
+            # condition up to the `{` at paren depth 0
+            q, pd = k, 0
+            while q < len(stripped):
+                if stripped[q] in '([':
+                    pd += 1
+                elif stripped[q] in ')]':
+                    pd -= 1
+                elif stripped[q] == '{' and pd == 0:
+                    break
+                q += 1
+            if q >= len(stripped):
+                continue
+            e = match_close(stripped, q)
+            if not re.fullmatch(r'\s*break\s*;?\s*', stripped[q + 1:e]):
+                continue
+            rest = stripped[e + 1:]
+            if rest.lstrip().startswith('else'):
+                continue
+            cond = stripped[k:q].strip()
+            out = out[:m.start()] + 'while !(' + cond + ') {' + rest + '}' + out[cb + 1:]
+            stats['R19_loop_leading_break'] = stats.get('R19_loop_leading_break', 0) + 1
+            done = True
+            break
+        if not done:
+            break
+    return out
 
 
 def rewrite_str_match(body, stats):
